@@ -1159,8 +1159,14 @@ class DataFieldRecordArray(
             if copy_field is True:
                 # Create a ndarray with the final data type and then assign the
                 # values from the data, which technically is a copy.
+                column = data_table_accessor.get_column(data, fname)
+                if len(column) != length:
+                    raise ValueError(
+                        'All field arrays must have the same length. '
+                        f'Field "{fname}" has length {len(column)}, but must '
+                        f'be {length}!')
                 field_arr = np.empty((length,), dtype=dt)
-                np.copyto(field_arr, data_table_accessor.get_column(data, fname))
+                np.copyto(field_arr, column)
             else:
                 field_arr = data_table_accessor.get_column(data, fname)
 
